@@ -348,9 +348,38 @@ fn run_wide(l: &[Val]) -> Val {
     Val::L(vec![i(1), Val::L(av), Val::L(nv)])
 }
 
+// kind 6: an API EVPN message; the last element tells whether the accepted route decodes
+// back from its own wire encoding to the same value
+fn run_api_evpn(l: &[Val]) -> Val {
+    match net_from_api(api_evpn_of(&l[1]), Family::L2VPN_EVPN) {
+        Ok(Nlri::Evpn(e)) => {
+            let bytes = Nlri::Evpn(e.clone()).encode_to_bytes();
+            let back = packet::evpn::EvpnNlri::decode(&mut Cursor::new(&bytes));
+            let same = matches!(back, Ok(ref b) if b == &e);
+            Val::L(vec![i(1), evpn_val(&e), Val::b(same)])
+        }
+        Ok(_) => Val::L(vec![i(-4)]),
+        Err(_) => Val::L(vec![i(0)]),
+    }
+}
+
+// kind 7: an internal EVPN route
+fn run_evpn(l: &[Val]) -> Val {
+    let n = Nlri::Evpn(evpn_of(&l[1]));
+    let x = nlri_to_api(&n);
+    let back = match net_from_api(x.clone(), Family::L2VPN_EVPN) {
+        Ok(Nlri::Evpn(e)) => Val::L(vec![i(1), evpn_val(&e)]),
+        Ok(_) => Val::L(vec![i(-4)]),
+        Err(_) => Val::L(vec![i(0)]),
+    };
+    Val::L(vec![api_evpn_val(&x), back])
+}
+
 fn run_case(case: &Val) -> Val {
     let l = case.list();
     match l[0].int() {
+        6 => run_api_evpn(l),
+        7 => run_evpn(l),
         4 => run_wide(l),
         0 => run_wire(l),
         1 => run_api(l),
